@@ -86,6 +86,22 @@ TARGETS = {
     "x/storage/keeper/payment_info.go": ("./x/storage/...", ["C07", "C04"]),
 }
 
+TARGETS.update({
+    "x/storage/genesis.go": ("./x/storage/...", ["C19"]),
+    "x/rns/genesis.go": ("./x/rns/...", ["C19"]),
+    "x/filetree/genesis.go": ("./x/filetree/...", ["C19"]),
+    "x/notifications/genesis.go": ("./x/notifications/...", ["C19"]),
+    "x/oracle/genesis.go": ("./x/oracle/...", ["C19"]),
+    "x/jklmint/genesis.go": ("./x/jklmint/...", ["C19"]),
+    "x/storage/types/genesis.go": ("./x/storage/...", ["C19"]),
+    "x/rns/types/genesis.go": ("./x/rns/...", ["C19"]),
+    "x/storage/keeper/msg_server_set_provider_keybase.go": ("./x/storage/...", ["C11"]),
+    "x/rns/keeper/msg_server_cancel_bid.go": ("./x/rns/...", ["C09"]),
+    "x/notifications/keeper/grpc_query_notifications.go": ("./x/notifications/...", ["C18"]),
+})
+# statement deletion: a line that is a bare call on the keeper / a record / the bank keeper (no assignment, no return)
+DEL_LINE = re.compile(r"^\s*(k|file|f|proof|whois|form|am\.keeper|k\.bankKeeper|keeper)\.[A-Za-z]+\(.*\)\s*(//.*)?$")
+
 # (regex on code part of the line, replacement) ; applied to one occurrence at a time
 MUTS = [
     (r"<=", "<"), (r">=", ">"), (r"(?<![<>=!])<(?![=<-])", "<="), (r"(?<![<>=!-])>(?![=>])", ">="),
@@ -114,6 +130,9 @@ def plan():
         for ln, line in enumerate(lines):
             if line.startswith("func "):
                 infunc = True
+            if infunc and DEL_LINE.match(line) and "Logger" not in line and "EmitEvent" not in line:
+                mid = hashlib.sha1(f"{f}:{ln}:del".encode()).hexdigest()[:8]
+                out.append({"id": mid, "file": f, "line": ln + 1, "old": line.strip(), "new": "// (deleted) " + line.strip(), "new_raw": "", "pkgs": pkgs, "props": props, "kind": "del"})
             if not infunc or SKIP_LINE.search(line):
                 continue
             code = code_part(line)
@@ -145,8 +164,9 @@ def run(k, n, maxn=None):
         mine = mine[:maxn]
     done = set()
     resf = os.path.join(WORK, f"res-{k}.jsonl")
-    if os.path.exists(resf):
-        done = {json.loads(l)["id"] for l in open(resf)}
+    for fn in os.listdir(WORK):   # results of every worker of every earlier campaign
+        if fn.startswith("res-"):
+            done |= {json.loads(l)["id"] for l in open(os.path.join(WORK, fn))}
     wt = f"/tmp/wt/mut-{k}"
     subprocess.run(["git", "-C", REPO, "worktree", "remove", "--force", wt], stdout=subprocess.DEVNULL, stderr=subprocess.DEVNULL)
     subprocess.run(["git", "-C", REPO, "worktree", "add", "-q", "--detach", wt, "HEAD"], check=True)
